@@ -40,7 +40,7 @@ try:
     rc1, out1 = demo(); t1 = tests()
     meta["demo_clean"] = {"exit": rc0, "last": out0}; meta["demo_mutated"] = {"exit": rc1, "last": out1}
     meta["tests_clean"] = t0; meta["tests_mutated"] = t1
-    strip = lambda s: re.sub(r" in [0-9.]+s.*", "", s)
+    strip = lambda s: re.sub(r",? *[0-9]+ warnings?", "", re.sub(r" in [0-9.]+s.*", "", s))   # pass / fail / error counts
     ok = rc0 == 0 and rc1 != 0 and strip(t0) == strip(t1)
     meta["confirmed"] = ok
     print(f"demo clean exit {rc0} {out0}; mutated exit {rc1} {out1}\ntests clean: {t0}\ntests mutated: {t1}\nconfirmed={ok}")
